@@ -194,6 +194,24 @@ GENERIC_GROUP_VARIANTS = [
 ]
 
 
+# single edits *inside* a trait of the group; the group definition itself is unchanged and the comparison goes through the group's layout
+GTRAIT_LINES = {
+    "Ma": "#[cglue_trait] pub trait Ma { fn ma(&self) -> u64; }",
+    "Oa": "#[cglue_trait] pub trait Oa { fn oa(&self) -> u64; }",
+    "Ob": "#[cglue_trait] pub trait Ob { fn ob(&self) -> u64; }",
+}
+GROUP_TRAIT_EDITS = [
+    ("optional trait Oa: return type changed", "Oa", "#[cglue_trait] pub trait Oa { fn oa(&self) -> u32; }"),
+    ("optional trait Oa: argument added", "Oa", "#[cglue_trait] pub trait Oa { fn oa(&self, x: u8) -> u64; }"),
+    ("optional trait Oa: receiver changed", "Oa", "#[cglue_trait] pub trait Oa { fn oa(&mut self) -> u64; }"),
+    ("optional trait Oa: method renamed", "Oa", "#[cglue_trait] pub trait Oa { fn oa_renamed(&self) -> u64; }"),
+    ("optional trait Oa: method added", "Oa", "#[cglue_trait] pub trait Oa { fn oa(&self) -> u64; fn oa2(&self) -> u64; }"),
+    ("optional trait Ob (last): argument type changed", "Ob", "#[cglue_trait] pub trait Ob { fn ob(&self, p: Pod) -> u64; }"),
+    ("mandatory trait Ma: return type changed", "Ma", "#[cglue_trait] pub trait Ma { fn ma(&self) -> i64; }"),
+    ("mandatory trait Ma: method added", "Ma", "#[cglue_trait] pub trait Ma { fn ma(&self) -> u64; fn ma2(&mut self, v: u64); }"),
+]
+
+
 def main():
     outdir, tier = sys.argv[1], sys.argv[2]
     os.makedirs(os.path.join(outdir, "src"), exist_ok=True)
@@ -226,6 +244,20 @@ def main():
                 b = "%s::%s%s<'static>" % (mod, gname, kind)
                 checks.append((len(meta), a, b))
                 meta.append(dict(id=len(meta), base=gname, edit=desc, kind=kind, interfaces_equal=equal))
+    for ei, (desc, tname, newline) in enumerate(GROUP_TRAIT_EDITS):
+        k += 1
+        gt = GROUPS.replace("pub mod gtraits {", "pub mod gtraits_e%d {" % ei).replace(GTRAIT_LINES[tname], newline)
+        assert gt.count(newline) == 1
+        body.append(gt)
+        mod = "ge%d" % ei
+        body.append("pub mod %s {\n    use super::*;\n    use super::gtraits_e%d::*;\n    cglue_trait_group!(Grp, Ma, { Oa, Ob });\n}" % (mod, ei))
+        for kind in ("Box", "Ref", "ArcBox"):
+            if kind == "Ref" and "&mut self" in newline:
+                continue
+            a = "base_grp::Grp%s<'static>" % kind
+            b = "%s::Grp%s<'static>" % (mod, kind)
+            checks.append((len(meta), a, b))
+            meta.append(dict(id=len(meta), base="Grp", edit=desc, kind=kind, interfaces_equal=False))
     body.append("fn main() {")
     for i, a, b in checks:
         body.append("    println!(\"{{\\\"k\\\":\\\"pair\\\",\\\"id\\\":%d,\\\"ab\\\":\\\"{}\\\",\\\"ba\\\":\\\"{}\\\",\\\"aa\\\":\\\"{}\\\",\\\"a_none\\\":\\\"{}\\\",\\\"none_b\\\":\\\"{}\\\"}}\", vname(compare_layouts(Some(<%s as StableAbi>::LAYOUT), Some(<%s as StableAbi>::LAYOUT))), vname(compare_layouts(Some(<%s as StableAbi>::LAYOUT), Some(<%s as StableAbi>::LAYOUT))), vname(compare_layouts(Some(<%s as StableAbi>::LAYOUT), Some(<%s as StableAbi>::LAYOUT))), vname(compare_layouts(Some(<%s as StableAbi>::LAYOUT), None)), vname(compare_layouts(None, Some(<%s as StableAbi>::LAYOUT))));" % (i, a, b, b, a, a, a, a, b))
